@@ -5,7 +5,8 @@ from . import model, gen
 from .gen import D
 
 WORDS = ['A', 'b', 'Zed', 'é', 'ß', '#x', '/*', '*/', 'x#y', '=', '[a', '(b)', '7', '0', '-1', '日本', "o'k", 'a=b', ']', '[', 'x/*y',
-         'Ünï', '0x', '1=2', '(', ')', '#', '\U0001d538', 'end*/', '[tie', '-2']
+         'Ünï', '0x', '1=2', '(', ')', '#', '\U0001d538', 'end*/', '[tie', '-2',
+         '%', '%s', '100%', '%d', '%(name)s', '{}', '{0}', '{x', '\\', '\\n', "'", '`']      # format-string and escape hazards
 NICKCH = 'abcXYZ_-.:;@!$%&+~^0123456789éж'
 
 
@@ -13,7 +14,7 @@ def word(d):
     if d.p(70):
         return d.choice(WORDS)
     n = d.int(1, 6)
-    return ''.join(d.choice('abcdefgXYZ0123456789#=[]()/*-éß') for _ in range(n))
+    return ''.join(d.choice('abcdefgXYZ0123456789#=[]()/*-éß%{}\\') for _ in range(n))
 
 
 def quoted_string(d, maxwords=3):
